@@ -277,6 +277,7 @@ class C17:
     PROP = "C17"
     LEVEL = "exploration"
     RUN_S = 240   # watchdog allowance per run: every reference costs a (system-wide serialised) fork
+    RUNS_FORK_THEMSELVES = True
     TIERS = {
         "quick": {"runs": 2400, "budget_s": 60, "chunk": 4, "determinism_runs": 12, "minimise_s": 30},
         "thorough": {"runs": 400000, "budget_s": 1500, "chunk": 8, "determinism_runs": 64, "minimise_s": 240},
